@@ -693,6 +693,7 @@ def run_property(chk, pid, oracles, want=('main',), restore=None, nq=280, nt=300
         chk.lean('XvcRepo', extra, exe=None, extra_modules=['XvcRepo.Materialise'])
     xvc = chk.build_xvc()
     r = Runner(chk, xvc, model)
+    chk.repo_ctx = {'xvc': xvc, 'model': model, 'runner': r}          # for the before_finish streams of the property files
     have_model = os.path.exists(model)
     chk.trusted_base += [
         'binary harness lib/repo_harness.py + lib/repo_check.py (scratch repositories driven by the rebuilt xvc binary, independent JSON event-file replayer, independent hashers lib/hashref.py: hashlib + pure-python BLAKE3 checked against published vectors)',
